@@ -356,7 +356,7 @@ def load_known():
 
 
 def write_replay(prop, payload):
-    d = os.path.join(VERIF, 'evidence', 'replays')
+    d = os.path.join(VERIF, 'evidence', 'replays') if REPO == '/repo' else os.path.join(VERIF, 'evidence', 'replays', 'mutated')
     os.makedirs(d, exist_ok=True)
     blob = json.dumps(payload, sort_keys=True, indent=1, default=str)
     h = hashlib.sha1(blob.encode()).hexdigest()[:10]
@@ -403,8 +403,10 @@ def write_evidence(ctx, plugin, proof, corr, violations, extra=None):
         'wall_s': round(time.time() - ctx.t0, 2),
         'violations': violations,
     }
-    os.makedirs(os.path.join(VERIF, 'evidence'), exist_ok=True)
-    with open(os.path.join(VERIF, 'evidence', f'{plugin.PROPERTY}.json'), 'w') as f:
+    # a run against a mutated copy of the repository (VERIF_REPO) must not overwrite the evidence of the real tree
+    evdir = os.environ.get('VERIF_EVIDENCE_DIR') or (os.path.join(VERIF, 'evidence') if REPO == '/repo' else os.path.join(ctx.scratch, 'evidence'))
+    os.makedirs(evdir, exist_ok=True)
+    with open(os.path.join(evdir, f'{plugin.PROPERTY}.json'), 'w') as f:
         json.dump(ev, f, indent=1, default=str)
         f.write('\n')
 
